@@ -48,13 +48,9 @@ Anything else raises Untranslatable: exit status 3, an `untranslatable` marker i
 everything that depends on it fails), and the checks count the dependent obligations as broken, never skipped.
 """
 import ast, os, sys
-
-class Untranslatable(Exception):
-    pass
-
-def bad(node, why):
-    line = getattr(node, 'lineno', '?')
-    raise Untranslatable(f'line {line}: {why}')
+sys.path.insert(0, os.path.dirname(os.path.abspath(__file__)))
+from pytr import (Untranslatable, bad, lname, atom, render, bind, joinc, tuple_pat, Style, Stmts, _mangled,
+                  is_self_attr, assigned_names, read_names, read_before_write, terminates, contains)
 
 # ----------------------------------------------------------------------------- types
 
@@ -106,36 +102,6 @@ def coerce(text, frm, to, node=None):
         if frm == to[1]: return f'(some {text})'
     bad(node, f'cannot use a value of type {frm} where {to} is expected')
 
-RESERVED = {'at', 'end', 'from', 'if', 'then', 'else', 'match', 'with', 'do', 'let', 'have', 'fun', 'in', 'instance', 'structure', 'def',
-            'theorem', 'open', 'namespace', 'section', 'variable', 'import', 'where', 'deriving', 'class', 'show', 'by', 'mutual', 'macro',
-            'syntax', 'notation', 'local', 'private', 'protected', 'partial', 'unsafe', 'universe', 'example', 'abbrev', 'inductive',
-            'extends', 'for', 'unless', 'try', 'catch', 'finally', 'mut', 'break', 'continue', 'return', 'nomatch', 'nofun', 'Type', 'Sort',
-            'Prop', 'db', 'Mo', 'e', 'Self', 'fileContents', 'Parser', 'begin', 'using', 'exact', 'calc', 'this', 'suffices', 'obtain', 'true', 'false', 'none', 'some'}
-
-_mangled = {}
-
-def lname(name):
-    if not all(c.isalnum() or c == '_' for c in name) or not name.isascii():
-        raise Untranslatable(f'identifier {name!r}')
-    m = name + '_' if (name in RESERVED or name.startswith('tmp') or name == '_') else name
-    if _mangled.setdefault(m, name) != name:
-        raise Untranslatable(f'identifiers {name!r} and {_mangled[m]!r} would both become `{m}`')
-    return m
-
-def atom(t):
-    """parenthesise unless already atomic"""
-    if t.replace('_', 'a').replace('.', 'a').isalnum(): return t
-    if (t[0], t[-1]) in (('(', ')'), ('[', ']')):
-        depth = 0
-        for i, c in enumerate(t):
-            if c in '([': depth += 1
-            elif c in ')]':
-                depth -= 1
-                if depth == 0 and i != len(t) - 1: break
-        else:
-            return t
-    return f'({t})'
-
 def bytes_lit(bs):
     if not bs: return '([] : Mo.Bytes)'
     return '([' + ', '.join(str(b) for b in bs) + '] : Mo.Bytes)'
@@ -159,132 +125,10 @@ IGNORED_ENTRY_ATTRS = {'comment', 'occurrences', 'flags', 'translated', 'previou
 KWARG_FIELDS = {'msgid': TEXT, 'msgctxt': TEXT, 'msgstr': TEXT, 'msgid_plural': TEXT, 'msgstr_plural': LIST(TEXT)}
 INSTANCE_FIELDS = {'possible_hidden_strings': ('possibleHiddenStrings', BOOL)}
 
-# ----------------------------------------------------------------------------- output tree + renderer
-
-def render(node, ind=0):
-    """node: ('raw', text) | ('let', name, expr, rest) | ('bind', pat, comp, rest) | ('if', cond, a, b)
-            | ('match', scrut, [(pat, body)]) | ('join', pat, comp_tree, type, rest)"""
-    pad = '  ' * ind
-    k = node[0]
-    if k == 'raw':
-        return [pad + node[1]]
-    if k == 'let':
-        return [pad + f'let {node[1]} := {node[2]}'] + render(node[3], ind)
-    if k == 'bind':
-        _, pat, comp, rest = node
-        return [pad + f'match {comp} with', pad + '| .error e => .error e', pad + f'| .ok {pat} =>'] + render(rest, ind + 1)
-    if k == 'if':
-        _, cond, a, b = node
-        return [pad + f'if {cond} then'] + render(a, ind + 1) + [pad + 'else'] + render(b, ind + 1)
-    if k == 'match':
-        out = [pad + f'match {node[1]} with']
-        for pat, body in node[2]:
-            out += [pad + f'| {pat} =>'] + render(body, ind + 1)
-        return out
-    if k == 'join':
-        _, pat, comp, ty, rest = node
-        return ([pad + 'match (show Except Mo.Err ' + ty + ' from'] + render(comp, ind + 2) + [pad + '  ) with',
-                pad + '| .error e => .error e', pad + f'| .ok {pat} =>'] + render(rest, ind + 1))
-    if k == 'tryexpr':
-        _, body, caught, handler, ty = node
-        return ([pad + 'Mo.Py.tryExcept (show Except Mo.Err ' + ty + ' from'] + render(body, ind + 2) + [pad + f'  ) {caught} ('] +
-                render(handler, ind + 2) + [pad + '  )'])
-    if k == 'forexpr':
-        _, pat, n, ivar, body, init = node
-        return [pad + f'Mo.Py.forRange {n} (fun {ivar} {pat} =>'] + render(body, ind + 2) + [pad + f'  ) {init}']
-    raise AssertionError(k)
-
-def bind(pat, comp, rest):
-    """match comp with | .error e => .error e | .ok pat => rest     (and   … | .ok pat => .ok pat   is   comp)"""
-    if rest == ('raw', f'.ok {pat}') and pat != '_':
-        return ('raw', comp)
-    return ('bind', pat, comp, rest)
-
-def joinc(pat, comp, ty, rest):
-    if rest == ('raw', f'.ok {pat}'):
-        return comp
-    return ('join', pat, comp, ty, rest)
-
-def tuple_pat(names):
-    if not names: return '()'
-    if len(names) == 1: return names[0]
-    return '(' + ', '.join(names) + ')'
-
 def tuple_type(types):
     if not types: return 'Unit'
     if len(types) == 1: return atom(lean_type(types[0]))
     return '(' + ' × '.join(lean_type(t) for t in types) + ')'
-
-# ----------------------------------------------------------------------------- syntactic helpers
-
-def is_self_attr(node, name=None):
-    return isinstance(node, ast.Attribute) and isinstance(node.value, ast.Name) and node.value.id == 'self' and (name is None or node.attr == name)
-
-def assigned_names(stmts, writes=None):
-    """names (and 'self') assigned anywhere in the statements; writes: method name -> does it assign attributes"""
-    out = set()
-    w = (lambda m: True) if writes is None else (lambda m: writes.get(m, True))
-    def target(t):
-        if isinstance(t, ast.Name): out.add(t.id)
-        elif isinstance(t, (ast.Tuple, ast.List)):
-            for x in t.elts: target(x)
-        elif isinstance(t, ast.Starred): target(t.value)
-        elif isinstance(t, ast.Attribute):
-            root = t
-            while isinstance(root, ast.Attribute): root = root.value
-            if isinstance(root, ast.Name): out.add(root.id)
-    for s in stmts:
-        for n in ast.walk(s):
-            if isinstance(n, ast.Assign):
-                for t in n.targets: target(t)
-            elif isinstance(n, (ast.AugAssign, ast.AnnAssign)):
-                target(n.target)
-            elif isinstance(n, ast.For):
-                target(n.target)
-            elif isinstance(n, ast.With):
-                for it in n.items:
-                    if it.optional_vars is not None: target(it.optional_vars)
-            elif isinstance(n, ast.Expr) and isinstance(n.value, ast.Call) and isinstance(n.value.func, ast.Attribute):
-                f = n.value.func          # mutating method call statements: x.update(...), self.instance.append(...), self._m(...)
-                root = f.value
-                while isinstance(root, ast.Attribute): root = root.value
-                if is_self_attr(f):
-                    if w(f.attr): out.add('self')
-                elif isinstance(root, ast.Name): out.add(root.id)
-            elif isinstance(n, ast.Call) and is_self_attr(n.func):
-                if w(n.func.attr): out.add('self')
-    return out
-
-def read_names(stmts):
-    out = set()
-    for s in stmts:
-        for n in ast.walk(s):
-            if isinstance(n, ast.Name) and isinstance(n.ctx, ast.Load):
-                out.add(n.id)
-    return out
-
-def read_before_write(stmts):
-    """names that may be read in the block before the block itself assigns them (top-level, conservative)"""
-    written, out = set(), set()
-    for s in stmts:
-        out |= read_names([s]) - written
-        if isinstance(s, ast.Assign) and all(isinstance(t, ast.Name) for t in s.targets):
-            written |= {t.id for t in s.targets}
-    return out
-
-def terminates(stmts):
-    """every path through the statements ends in raise/return"""
-    for s in stmts:
-        if isinstance(s, (ast.Raise, ast.Return)):
-            return True
-        if isinstance(s, ast.If) and s.orelse and terminates(s.body) and terminates(s.orelse):
-            return True
-        if isinstance(s, ast.Try) and not s.finalbody and not s.orelse and terminates(s.body) and all(terminates(h.body) for h in s.handlers):
-            return True
-    return False
-
-def contains(stmts, kinds):
-    return any(isinstance(n, kinds) for s in stmts for n in ast.walk(s))
 
 # ----------------------------------------------------------------------------- the translator
 
@@ -419,7 +263,7 @@ class Unit:
             self.stack.pop()
         res = self.result_type(rt, self.writes[name])
         sig = ''.join(f' ({lname(p)} : {lean_type(t)})' for p, t in zip(params, argtypes))
-        text = f'/-- `Parser.{name}` -/\ndef {lname(name)} (db : Mo.CodecDB) (self : Self){sig} : Except Mo.Err {atom(res)} :=\n' + '\n'.join(render(tree, 1)) + '\n'
+        text = f'/-- `Parser.{name}` -/\ndef {lname(name)} (db : Mo.CodecDB) (self : Self){sig} : Except Mo.Err {atom(res)} :=\n' + '\n'.join(render(tree, 1, STYLE)) + '\n'
         self.defs[name] = (argtypes, rt, text)
         self.order.append(name)
         return rt
@@ -429,8 +273,24 @@ class Unit:
         if rt == NONE: return 'Self'
         return f'({lean_type(rt)} × Self)'
 
-class Fn:
+class MoTypes:
+    NONE, INT = NONE, INT
+    join = staticmethod(join)
+    coerce = staticmethod(coerce)
+    tuple_type = staticmethod(tuple_type)
+
+STYLE = Style('Mo.Err', 'Mo.Py.tryExcept', 'Mo.Py.forRange')
+
+class Fn(Stmts):
     """translation of one method body"""
+    T = MoTypes
+    EXC_ASSERT = '.error (.crash .assertion)'
+    CAUGHT = CAUGHT
+    writes_map = property(lambda self: self.u.writes)
+
+    def note(self, msg):
+        self.u.dropped.add(msg)
+
     def __init__(self, unit, name, env, writes):
         self.u = unit
         self.name = name
@@ -438,10 +298,6 @@ class Fn:
         self.ret_types = None       # probe mode: collect
         self.ret_type = None
         self.ntmp = 0
-
-    def tmp(self):
-        self.ntmp += 1
-        return f'tmp{self.ntmp}'
 
     # ---------------- results
     def ok(self, value_text, ty, env, node=None):
@@ -453,9 +309,6 @@ class Fn:
         if self.ret_type == NONE: return ('raw', '.ok self')
         return ('raw', f'.ok ({v}, self)')
 
-    def fall_off(self, env):
-        return self.ok('()', NONE, env)
-
     # ---------------- expressions
     def pure(self, e):
         """expression without partial operations -> (text, type); env-free (constants)"""
@@ -463,16 +316,6 @@ class Fn:
         text, ty = self.expr(e, {}, B)
         if B: bad(e, 'partial operation in a constant')
         return text, ty
-
-    def wrap(self, B, tree):
-        for b in reversed(B):
-            tree = b(tree)
-        return tree
-
-    def hoist(self, B, comp, pat=None):
-        t = pat or self.tmp()
-        B.append(lambda rest, t=t, comp=comp: bind(t, comp, rest))
-        return t
 
     def expr(self, e, env, B):
         """-> (pure Lean text, type); partial sub-computations are appended to B (in evaluation order)"""
@@ -558,13 +401,6 @@ class Fn:
         if ty in (BYTES, STR): return f'(!{text}.isEmpty)'
         if ty == INT: return f'(decide ({text} ≠ 0))'
         bad(e, f'truth value of {ty}')
-
-    def none_test(self, e, env):
-        """(name, is_not) if e is `<local name> is [not] None`"""
-        if isinstance(e, ast.Compare) and len(e.ops) == 1 and isinstance(e.ops[0], (ast.Is, ast.IsNot)) and \
-           isinstance(e.comparators[0], ast.Constant) and e.comparators[0].value is None and isinstance(e.left, ast.Name) and e.left.id in env:
-            return e.left.id, isinstance(e.ops[0], ast.IsNot)
-        return None
 
     def compare(self, e, env, B):
         if len(e.ops) != 1: bad(e, 'chained comparison')
@@ -769,7 +605,7 @@ class Fn:
         if inner[0] == 'bind' and inner[3] == ('raw', f'.ok {inner[1]}'):
             body_text = inner[2]             # match c with | .error e => .error e | .ok t => .ok t   is   c
         else:
-            body_text = ' '.join(l.strip() for l in render(inner, 0))
+            body_text = ' '.join(l.strip() for l in render(inner, 0, STYLE))
         return self.hoist(B, f'Mo.Py.mapM (fun {lname(svar)} => {body_text}) {xs}'), LIST(ty)
 
     # ---------------- calls of methods of self (statement level)
@@ -811,51 +647,6 @@ class Fn:
         return 'pure', text, ty, False
 
     # ---------------- statements
-    def block(self, stmts, env, k, live):
-        """stmts in env, then the continuation k(env) -> tree.  live: names read by the continuation."""
-        if not stmts:
-            return k(env)
-        s, rest = stmts[0], stmts[1:]
-        live_rest = read_names(rest) | live | ({'self'} if self.writes else set())
-        go = lambda env2: self.block(rest, env2, k, live)
-        B = []
-        if isinstance(s, ast.Pass):
-            return go(env)
-        if isinstance(s, ast.Expr) and isinstance(s.value, ast.Constant):
-            return go(env)
-        if isinstance(s, ast.Return):
-            if s.value is None: return self.ok('()', NONE, env, s)
-            kind, text, ty, w = self.value(s.value, env, B)
-            if kind == 'comp':
-                t = self.tmp()
-                B.append(lambda r, t=t, text=text, w=w, ty=ty: bind((f'({t}, self)' if w and ty != NONE else ('self' if w else t)), text, r))
-                text = t if not (w and ty == NONE) else '()'
-            return self.wrap(B, self.ok(text, ty, env, s))
-        if isinstance(s, ast.Raise):
-            return self.wrap(B, ('raw', self.raise_(s, env, B)))
-        if isinstance(s, ast.Assert):
-            nt = self.none_test(s.test, env)
-            if nt and nt[1] and env[nt[0]][0] == 'opt':
-                x = nt[0]
-                env2 = dict(env); env2[x] = env[x][1]
-                return ('match', lname(x), [('none', ('raw', '.error (.crash .assertion)')), (f'some {lname(x)}', go(env2))])
-            c = self.cond(s.test, env, B)
-            return self.wrap(B, ('if', c, go(env), ('raw', '.error (.crash .assertion)')))
-        if isinstance(s, ast.Assign):
-            if len(s.targets) != 1: bad(s, 'multiple assignment targets')
-            return self.assign(s.targets[0], s.value, s, env, go)
-        if isinstance(s, ast.Expr) and isinstance(s.value, ast.Call):
-            return self.call_stmt(s.value, s, env, go)
-        if isinstance(s, ast.If):
-            return self.if_(s, env, go, live_rest)
-        if isinstance(s, ast.Try):
-            return self.try_(s, env, go, live_rest)
-        if isinstance(s, ast.For):
-            return self.for_(s, env, go, live_rest)
-        if isinstance(s, ast.With):
-            return self.with_(s, env, go)
-        bad(s, f'statement {type(s).__name__}')
-
     def raise_(self, s, env, B):
         x = s.exc
         if s.cause is not None or x is None: bad(s, 'raise … from / bare raise')
@@ -974,150 +765,13 @@ class Fn:
         bad(s, f'call statement {ast.unparse(c)[:60]}')
 
     # ---- joins
-    def join_vars(self, blocks, env, live):
-        """variables assigned in the blocks that the continuation reads"""
-        names = set()
-        for b in blocks: names |= assigned_names(b, self.u.writes)
-        return sorted(n for n in names if n in live)
-
-    def run_join(self, branches, env, vars_, node):
-        """branches: list of functions (k -> tree).  Two passes: collect the types of vars_ at the end of every branch that
-        falls through, then emit with coercions.  -> (trees, types) or raises"""
-        ends = []
-        def probe(env2):
-            ends.append(env2)
-            return ('raw', '.ok default')
-        saved = self.ntmp
-        for br in branches: br(probe)
-        self.ntmp = saved
-        types = []
-        for v in vars_:
-            ty = None
-            for en in ends:
-                if v not in en: bad(node, f'{v} may be unbound after this statement')
-                ty = en[v] if ty is None else join(ty, en[v], node)
-            if ty is None: ty = env.get(v, NONE)
-            types.append(ty)
-        def final(env2):
-            vals = [coerce(lname(v), env2[v], t, node) for v, t in zip(vars_, types)]
-            return ('raw', '.ok ' + tuple_pat(vals))
-        trees = [br(final) for br in branches]
-        views = {}
-        for v in vars_:
-            views['#view:' + v] = all(en.get('#view:' + v, False) for en in ends) if ends else False
-        return trees, types, views
-
-    def if_(self, s, env, go, live):
-        B = []
-        nt = self.none_test(s.test, env)
-        def mk(then_tree, else_tree):
-            if nt:
-                x, is_not = nt
-                ty = env[x]
-                if ty == NONE: return else_tree if is_not else then_tree
-                if ty[0] != 'opt': return then_tree if is_not else else_tree
-                none_t, some_t = (else_tree, then_tree) if is_not else (then_tree, else_tree)
-                return ('match', lname(x), [('none', none_t), (f'some {lname(x)}', some_t)])
-            return ('if', c, then_tree, else_tree)
-        def envs():
-            e_then, e_else = dict(env), dict(env)
-            if nt and env[nt[0]][0] == 'opt':
-                x, is_not = nt
-                (e_then if is_not else e_else)[x] = env[x][1]
-            return e_then, e_else
-        static = None
-        if nt:
-            ty = env[nt[0]]
-            if ty == NONE: static = not nt[1]
-            elif ty[0] != 'opt': static = nt[1]
-            c = None
-        else:
-            c = self.cond(s.test, env, B)
-        e_then, e_else = envs()
-        if static is not None:
-            # `x is None` decided by the type of x: only one branch exists
-            self.u.dropped.add(f'{self.name} line {s.lineno}: `{ast.unparse(s.test)}` is {static} by typing; the other branch is dropped')
-            body = s.body if static else s.orelse
-            return self.block(list(body), env, go, live)
-        t_then, t_else = terminates(s.body), terminates(s.orelse)
-        if t_then and t_else:
-            return self.wrap(B, mk(self._seq(s.body, e_then, None, live), self._seq(s.orelse, e_else, None, live)))
-        if t_then:
-            return self.wrap(B, mk(self._seq(s.body, e_then, None, live), self._seq(s.orelse, e_else, go, live)))
-        if t_else:
-            return self.wrap(B, mk(self._seq(s.body, e_then, go, live), self._seq(s.orelse, e_else, None, live)))
-        if contains(s.body + s.orelse, (ast.Return,)):
-            bad(s, '`return` on some but not all paths of a branch')
-        vars_ = self.join_vars([s.body, s.orelse], env, live)
-        brs = [lambda k: self._seq(s.body, e_then, k, set(vars_)), lambda k: self._seq(s.orelse, e_else, k, set(vars_))]
-        trees, types, views = self.run_join(brs, env, vars_, s)
-        env2 = dict(env)
-        for v, t in zip(vars_, types): env2[v] = t
-        env2.update(views)
-        return self.wrap(B, joinc(tuple_pat([lname(v) for v in vars_]), mk(trees[0], trees[1]), tuple_type(types), go(env2)))
-
-    def _seq(self, stmts, env, k, live):
-        """a nested block; k=None: the block terminates by itself"""
-        if k is None:
-            def k(env2): raise AssertionError('fell through a terminating block')
-        return self.block(list(stmts), env, k, live)
-
-    def try_(self, s, env, go, live):
-        if s.orelse: bad(s, 'try/else')
-        if s.finalbody:
-            # try: A finally: del self.x   — the attribute is not read afterwards
-            ok = not s.handlers and all(isinstance(d, ast.Delete) and all(is_self_attr(t) for t in d.targets) for d in s.finalbody)
-            if not ok: bad(s, 'try/finally other than `finally: del self.<attr>`')
-            self.u.dropped.add(f'{self.name}: `finally: {ast.unparse(s.finalbody[0])}` (the attribute is not read afterwards)')
-            self.u.deleted = getattr(self.u, 'deleted', set()) | {t.attr for d in s.finalbody for t in d.targets}
-            return self.block(list(s.body), env, go, live)
-        if len(s.handlers) != 1: bad(s, 'several except clauses')
-        h = s.handlers[0]
-        if h.name is not None or not isinstance(h.type, ast.Name) or h.type.id not in CAUGHT: bad(s, f'except clause {ast.unparse(h.type) if h.type else ""}')
-        if contains(s.body + h.body, (ast.Return,)): bad(s, '`return` inside try')
-        vars_ = self.join_vars([s.body, h.body], env, live)
-        if 'self' in vars_: bad(s, 'attribute assignment inside try (state at the time of the exception)')
-        brs = [lambda k: self._seq(s.body, dict(env), k, set(vars_)), lambda k: self._seq(h.body, dict(env), k, set(vars_))]
-        trees, types, views = self.run_join(brs, env, vars_, s)
-        env2 = dict(env)
-        for v, t in zip(vars_, types): env2[v] = t
-        env2.update(views)
-        ty = tuple_type(types)
-        return joinc(tuple_pat([lname(v) for v in vars_]), ('tryexpr', trees[0], CAUGHT[h.type.id], trees[1], ty), ty, go(env2))
-
-    def for_(self, s, env, go, live):
-        if s.orelse: bad(s, 'for/else')
-        if contains(s.body, (ast.Return, ast.Break, ast.Continue)): bad(s, 'return/break/continue inside for')
-        it = s.iter
-        if not (isinstance(it, ast.Call) and isinstance(it.func, ast.Name) and it.func.id == 'range' and len(it.args) == 1 and not it.keywords and isinstance(s.target, ast.Name)):
-            bad(s, 'for loop other than `for i in range(n)`')
-        B = []
-        n, nty = self.expr(it.args[0], env, B)
-        if nty != INT: bad(s, 'range of a non-int')
-        ivar = s.target.id
-        assigned = assigned_names(s.body, self.u.writes)
-        if ivar in assigned: bad(s, 'loop variable assigned in the body')
-        carried = read_before_write(s.body) | live
-        vars_ = sorted(v for v in assigned if v in carried)
-        for v in vars_:
-            if v not in env: bad(s, f'{v} is assigned in the loop and used outside one iteration but not bound before the loop')
-        if (ivar in live): bad(s, 'loop variable used after the loop')
-        types = [env[v] for v in vars_]
-        env_body = dict(env); env_body[ivar] = INT
-        ends = []
-        def probe(env2):
-            ends.append(env2); return ('raw', '.ok default')
-        saved = self.ntmp
-        self._seq(s.body, env_body, probe, set(vars_))
-        self.ntmp = saved
-        for en in ends:
-            for v, t in zip(vars_, types):
-                if join(t, en[v], s) != t: bad(s, f'type of {v} changes in the loop')
-        def final(env2):
-            return ('raw', '.ok ' + tuple_pat([coerce(lname(v), env2[v], t, s) for v, t in zip(vars_, types)]))
-        body = self._seq(s.body, env_body, final, set(vars_))
-        pat = tuple_pat([lname(v) for v in vars_])
-        return self.wrap(B, joinc(pat, ('forexpr', pat, atom(n), lname(ivar), body, pat), tuple_type(types), go(dict(env))))
+    def try_finally(self, s, env, go, live):
+        # try: A finally: del self.x   — the attribute is not read afterwards
+        ok = not s.handlers and all(isinstance(d, ast.Delete) and all(is_self_attr(t) for t in d.targets) for d in s.finalbody)
+        if not ok: bad(s, 'try/finally other than `finally: del self.<attr>`')
+        self.u.dropped.add(f'{self.name}: `finally: {ast.unparse(s.finalbody[0])}` (the attribute is not read afterwards)')
+        self.u.deleted = getattr(self.u, 'deleted', set()) | {t.attr for d in s.finalbody for t in d.targets}
+        return self.block(list(s.body), env, go, live)
 
     def with_(self, s, env, go):
         # with open(path, 'rb') as file: contents = file.read()   ->  the parameter `contents`
